@@ -283,9 +283,10 @@ def malformed_stream(ctx, dis, hist):
 
 def correspondence(ctx):
     rng = ctx.rng
-    n = 36 if ctx.thorough else 12
+    n = 30 if ctx.thorough else 12
     off = rng.randrange(24)
-    specs = [H.add_observed(H.gen_spec(rng, idx=off + i, big=(ctx.thorough and i % 6 == 5)), rng)
+    specs = [H.add_observed(H.gen_spec(rng, idx=off + i, big=(ctx.thorough and i % 6 == 5),
+                                      max_pairs=4 if ctx.thorough else 2), rng)
              for i in range(n)]
     texts, impls = [], []
     for i, sp in enumerate(specs):
